@@ -36,7 +36,7 @@ def run_stock(repo, group, mons, timeout=600, select=None):
         files = [f for f in GROUPS[group] if (tmp / f).exists()]
         env = dict(os.environ, VF_STOCK_OUT=str(out), VF_STOCK_MON=','.join(mons), PYTHONDONTWRITEBYTECODE='1',
                    PYTHONPATH=os.pathsep.join([str(tmp), str(ROOT), str(ROOT / '.deps')]))
-        cmd = [sys.executable, '-m', 'pytest', '-q', '-x' if False else '-q', '-p', 'no:cacheprovider', '-p', 'vf.stock_plugin',
+        cmd = [sys.executable, '-m', 'pytest', '-q', '-p', 'no:cacheprovider', '-p', 'vf.stock_plugin',
                '-o', 'addopts=', '--no-header', '-W', 'ignore'] + files
         if select:
             cmd += ['-k', select]
@@ -58,6 +58,25 @@ def run_stock(repo, group, mons, timeout=600, select=None):
         shutil.rmtree(tmp, ignore_errors=True)
 
 
+QUICK_GROUPS = {'C01': ['invocation'], 'C02': ['invocation'], 'C06': ['invocation'], 'C07': ['invocation', 'requests'],
+                'C15': ['requests', 'invocation']}
+
+
+def stock_cases(tier, first_idx, pid):
+    """Case descriptions of the stock-suite workload for property `pid` (appended to the module's plan)."""
+    groups = QUICK_GROUPS[pid] if tier == 'quick' else list(GROUPS)
+    return [{'idx': first_idx + k, 'kind': 'stock', 'group': g} for k, g in enumerate(groups)]
+
+
+def run_stock_case(case, ctx, pid):
+    from vf.runner import REPO
+    recs, tail = run_stock(REPO, case['group'], [pid], timeout=280 if ctx.tier == 'quick' else 1500)
+    merge_into(ctx, pid, recs, tail, case['group'])
+    if not ctx.samples:
+        ctx.sample({'kind': 'stock tests under monitors', 'group': case['group'], 'tests': len(recs),
+                    'tests_with_element_events': sum(1 for r in recs if r['events'])})
+
+
 def merge_into(ctx, pid, recs, tail, group):
     """Folds the per-test records of one monitor into the case context of property `pid`."""
     n_tests = n_events = 0
@@ -76,7 +95,9 @@ def merge_into(ctx, pid, recs, tail, group):
     ctx.count('stock_tests_run', n_tests)
     ctx.count('stock_tests_with_events', sum(1 for r in recs if r['events'] or r['monitors'].get(pid, {}).get('counters')))
     if not n_tests:
-        raise RuntimeError(f'stock group {group}: no test record produced: {tail}')
+        # nothing observed is not "held": the required counter stock_tests_run makes the run inconclusive
+        ctx.skip(f'stock-suite-produced-no-record:{group}')
+        return
     ctx.nontrivial(('stock', group, n_tests, n_events))
     ctx.cls(f'stock:{group}')
 
